@@ -30,6 +30,30 @@ from kawin.solver.Solver import DESolver, SolverType
 
 NAN, INF = float("nan"), float("inf")
 
+# engine gap worked around here: StrengthModel.precStrength converts a boolean mask with np.array(mask, dtype='int'); numpy then calls
+# int() on every element.  A symbolic boolean is concretised by forking (sound: both values are explored).
+if not hasattr(core.SymBool, "__int__"):
+    core.SymBool.__int__ = lambda self: 1 if bool(self) else 0
+
+# second engine gap: SymArray.__getitem__ with a tuple key (slice, mask) applies the mask to the wrong axis (it indexes with the
+# leading part first and then masks axis 0 of the result).  precStrength does ps[:, indices] with a mask of plain Python bools held in
+# an object array; such masks are turned into genuine bool arrays here, after which numpy's own indexing applies.
+from vk import symnp as _symnp
+if not getattr(_symnp.SymArray, "_c18_getitem", False):
+    _orig_getitem = _symnp.SymArray.__getitem__
+
+    def _plain_mask(k):
+        if isinstance(k, np.ndarray) and k.dtype == object and k.size > 0 and all(isinstance(e, (bool, np.bool_)) for e in k.view(np.ndarray).flat):
+            return k.view(np.ndarray).astype(bool)
+        return k
+
+    def _getitem(self, key):
+        if isinstance(key, tuple) and len(key) > 1:
+            key = tuple(_plain_mask(k) for k in key)
+        return _orig_getitem(self, key)
+    _symnp.SymArray.__getitem__ = _getitem
+    _symnp.SymArray._c18_getitem = True
+
 
 def _ok(ctx, v):
     """finite and >= 0; plain numbers (the real code may deliver NaN / inf constants) are judged in Python"""
@@ -248,6 +272,81 @@ def total(ctx, n=2, exp=2, which="prec"):
         ctx.prove("total strength is non-decreasing in " + which, ctx.le(t[j], t2[j]))
 
 
+def prec(ctx, nph=2, pattern="r", same=2, mixed=1, kinds=("modulus",)):
+    """precStrength over the recorded history: multi-phase superposition of the per-phase strengths (raw formulas replaced by
+    arbitrary values as in clip)"""
+    sm = mk_sm(kinds, "all")
+    M = ctx.real("M", (0.5, 3.0)); ctx.assume(M > 0)
+    sm.setTaylorFactor(M)
+    sm.setStrengthSuperpositionExponent(2, same, mixed, 1.8)
+    N = len(pattern)
+    phases = ["P%d" % (i + 1) for i in range(nph)]
+    raw = {}
+    for p in range(nph):
+        for k in kinds:
+            for nm in WS[k]:
+                raw[(nm, p)] = _raw(ctx, "%s_%d" % (nm, p), pattern)
+        raw[("orowan", p)] = _raw(ctx, "orowan_%d" % p, pattern)
+    sm.rss = ctx.reals("rss", (N, nph), (0.0, 2.0)); sm.ls = ctx.reals("ls", (N, nph), (0.1, 2.0))
+    cur = [0]
+    for k in kinds:
+        for nm in WS[k]:
+            setattr(sm, nm, (lambda name: (lambda r, Ls, r0, phase="all": raw[(name, cur[0])] * 1))(nm))
+    sm.orowan = lambda r, Ls: raw[("orowan", cur[0])] * 1
+    host = PrecipitateModel(phases=phases, elements=["A"])
+    # the per-phase strengths, through the same real functions
+    per = []
+    for p in range(nph):
+        cur[0] = p
+        w, s, o, _ = sm.getStrengthContributions(sm.rss[:, p], sm.ls[:, p], phases[p])
+        per.append(sm.combineStrengthContributions(w, s, o))
+    orig_get = sm.getStrengthContributions
+
+    def get(rss, Ls, phase="all", selectedContributions=None):
+        cur[0] = list(phases).index(phase)
+        return orig_get(rss, Ls, phase, selectedContributions)
+    sm.getStrengthContributions = get
+    ps = sm.precStrength(host)
+    ctx.observe("prec", ps)
+    ctx.prove("one precipitate strength per recorded time", np.shape(ps) == (N,))
+    if np.shape(ps) != (N,):
+        return
+    for j in range(N):
+        ctx.prove("combined precipitate strength is finite and >= 0", _ok(ctx, ps[j]))
+        ctx.prove("combined precipitate strength >= the strength of each phase", ctx.all([ctx.le(per[p][j], ps[j]) for p in range(nph)]))
+        ctx.prove("zero precipitate strength when no phase contributes", ctx.implies(ctx.all([ctx.eq(per[p][j], 0.0, rtol=0.0) for p in range(nph)]), ctx.eq(ps[j], 0.0, rtol=0.0)))
+        if nph == 1:
+            ctx.prove("single phase: the phase's own strength", ctx.eq(ps[j], per[0][j]))
+
+
+def gg_post(ctx, n=3):
+    """GrainGrowthModel.postProcess from an arbitrary new distribution: total grain volume (third moment) is 1 afterwards, one
+    clock / mean-size entry is appended, the mean size is the volume-mean radius"""
+    rmin, dr = 0.05, 0.02
+    gg = GrainGrowthModel(rmin, rmin + n * dr, n, 1, 10 * n)
+    gg.LoadDistributionFunction(lambda R: 1.0 + 0.0 * R)
+    t0 = ctx.real("t0", (0.0, 1.0)); t1 = ctx.real("t1", (1.0, 2.0))
+    gg.time = np.array([t0])
+    x = ctx.reals("x", n, (0.0, 50.0))
+    for i in range(n):
+        ctx.assume(x[i] >= 0)
+    ctx.assume(ctx.any([x[i] >= 1 for i in range(n)]), "at least one class holds a grain (otherwise the structure has vanished)")
+    out, stop = gg.postProcess(t1, [x])
+    pb = gg.pbm
+    ctx.observe("psd", pb.PSD); ctx.observe("avgR", gg.avgR[-1])
+    ctx.prove("postProcess never stops the host solve", stop is False)
+    ctx.prove("returned state is the stored distribution", len(out) == 1 and out[0] is pb.PSD)
+    ctx.prove("one clock and one mean-size entry appended", np.shape(gg.time) == (2,) and np.shape(gg.avgR) == (2,))
+    ctx.prove("clock entry is the time handed in", ctx.eq(gg.time[1], t1, rtol=0.0))
+    nb = pb.bins
+    m3 = sum(pb.PSD[i] * pb.PSDsize[i] ** 3 for i in range(nb)); m0 = sum(pb.PSD[i] for i in range(nb))
+    ctx.prove("total grain volume is conserved (third moment = 1 after the step)", ctx.eq(m3, 1.0))
+    ctx.prove("populations stay >= 0", ctx.all([ctx.le(0.0 * t0, pb.PSD[i]) for i in range(nb)]))
+    a = gg.avgR[1]
+    ctx.prove("mean grain size is the volume-mean radius: avgR^3 * number = volume", ctx.eq(a * a * a * m0, m3))
+    ctx.prove("mean grain size > 0", ctx.lt(0.0 * t0, a))
+
+
 # ------------------------------------------------------------------------------------------------ histories
 
 def mk_host(ctx, nph, N, ncls, nel=1):
@@ -255,13 +354,10 @@ def mk_host(ctx, nph, N, ncls, nel=1):
     m = PrecipitateModel(phases=phases, elements=els)
     d = PrecipitationData(m.phases, m.elements, N)
     t = ctx.reals("time", N, (0.0, 1.0))
-    if ctx.mode == "concrete":
-        t = np.cumsum(np.abs(t) + 0.1)
-    else:
-        for i in range(N):
-            ctx.assume(t[i] >= 0)
-            if i > 0:
-                ctx.assume(t[i - 1] < t[i])
+    for i in range(N):
+        ctx.assume(t[i] >= 0)
+        if i > 0:
+            ctx.assume(t[i - 1] < t[i])
     d.time = t
     d.composition = ctx.reals("composition", (N, nel), (0.0, 1.0))
     d.volFrac = ctx.reals("volFrac", (N, nph), (0.0, 0.5))
@@ -337,38 +433,42 @@ def gg_couple(ctx, nph=2, N=3):
     ctx.prove("no drag without precipitates", ctx.implies(nop, ctx.eq(gg._z, 0.0, rtol=0.0)))
 
 
-def gg_frozen(ctx, n=2, solver="rk4"):
-    """real solve over a host step under pinning strong enough to freeze every boundary"""
+DISTS = {"a": [3.0, 2.0], "b": [1.0, 4.0, 2.0], "c": [2.0, 0.0, 5.0]}
+
+
+def gg_frozen(ctx, dist="a", solver="rk4"):
+    """real GrainGrowthModel.solve (GenericModel.solve -> DESolver.solve -> iterator -> postProcess) over one host step under
+    pinning strong enough to freeze every boundary; symbolic host times, grain-growth clock and drag, concrete grain distribution"""
+    wts = DISTS[dist]; n = len(wts)
     m, d = mk_host(ctx, 1, 2, 2)
     d.n = 1
-    gg, b0, w = mk_gg(ctx, n)
-    gg.solverType = SolverType.RK4 if solver == "rk4" else SolverType.EXPLICITEULER
-    psd = ctx.reals("grains", n, (1.5, 5.0))
-    for i in range(n):
-        ctx.assume(psd[i] > 1)               # populated classes (UpdatePBMEuler drops classes below one grain)
-    gg.pbm.PSD = psd
-    gg.Normalize()
-    # grid narrow enough that no re-meshing is considered; last class must not trigger the append rule after normalisation
-    ctx.assume(b0 + n * w <= 10 * b0)
-    start = [gg.pbm.PSD[i] * 1 for i in range(n)]
-    for i in range(n):
-        ctx.assume(start[i] >= 1)
+    rp = 0.001                      # mean precipitate radius of the host step (concrete), volume fraction symbolic
+    d.Ravg[1, 0] = rp
+    rmin, dr = 0.05, 0.02
+    gg = GrainGrowthModel(rmin, rmin + n * dr, n, 1, 10 * n, solverType=SolverType.RK4 if solver == "rk4" else SolverType.EXPLICITEULER)
+    gg.setGrainBoundaryMobility(1.0); gg.setGrainBoundaryEnergy(0.5)
+    gg.LoadDistributionFunction(lambda R: np.array(wts) + 0.0 * R)
+    start = [float(gg.pbm.PSD[i]) for i in range(n)]
+    r0 = float(gg.avgR[0])
     t_gg = ctx.real("ggclock", (0.0, 5.0))
     gg.time = np.array([t_gg])
-    gg.avgR = np.array([gg.Rm(gg.pbm.PSD)])
-    # strong pinning: z * R_min >= 1  =>  |1/Rcr - 1/R_i| <= 1/R_min <= z for every boundary
-    ctx.assume(d.Ravg[1, 0] > 0)
-    ctx.assume(d.volFrac[1, 0] * b0 >= gg.K["all"] * d.Ravg[1, 0], "strong pinning: z >= 1/R_min")
+    # strong pinning: z * R_min >= 1  =>  |1/Rcr - 1/R_i| <= 1/R_min <= z for every boundary;  z = f / (K * Ravg)
+    ctx.assume(d.volFrac[1, 0] * rmin >= gg.K["all"] * rp, "strong pinning: z >= 1/R_min")
     gg.updateCoupledModel(m)
-    ctx.observe("clock", gg.time); ctx.observe("psd", gg.pbm.PSD)
+    ctx.observe("clock", gg.time); ctx.observe("psd", gg.pbm.PSD); ctx.observe("z", gg._z)
     ctx.prove("one clock entry per host step", np.shape(gg.time) == (2,) and np.shape(gg.avgR) == (2,))
     if np.shape(gg.time) != (2,):
         return
     ctx.prove("grain-growth clock advances by exactly the host step", ctx.eq(gg.time[1] - t_gg, d.time[1] - d.time[0]))
     ctx.prove("class count unchanged", gg.pbm.bins == n and np.shape(gg.pbm.PSD) == (n,))
     if np.shape(gg.pbm.PSD) == (n,):
-        ctx.prove("frozen structure: grain size distribution unchanged", ctx.all([ctx.eq(gg.pbm.PSD[i], start[i]) for i in range(n)]))
-    ctx.prove("frozen structure: mean grain size unchanged", ctx.eq(gg.avgR[1], gg.avgR[0]))
+        tol = 1e-9
+        ctx.prove("frozen structure: grain size distribution unchanged (to rounding of the re-normalisation)",
+                  ctx.all([ctx.all([ctx.le(gg.pbm.PSD[i], start[i] * (1 + tol) + 0.0 * t_gg), ctx.le(start[i] * (1 - tol) + 0.0 * t_gg, gg.pbm.PSD[i])]) for i in range(n)]))
+        m3 = sum(gg.pbm.PSD[i] * float(gg.pbm.PSDsize[i]) ** 3 for i in range(n))
+        ctx.prove("total grain volume conserved over the step", ctx.all([ctx.le(m3, 1 + tol + 0.0 * t_gg), ctx.le(1 - tol + 0.0 * t_gg, m3)]))
+    a3 = gg.avgR[1] * gg.avgR[1] * gg.avgR[1]
+    ctx.prove("frozen structure: mean grain size unchanged", ctx.all([ctx.le(a3, r0 ** 3 * (1 + 1e-8) + 0.0 * t_gg), ctx.le(r0 ** 3 * (1 - 1e-8) + 0.0 * t_gg, a3)]))
 
 
 _FS = [StrengthModel.getStrengthContributions, StrengthModel.combineStrengthContributions, StrengthModel.totalStrength, StrengthModel._getStrengthFunctions,
@@ -406,12 +506,19 @@ HARNESSES = [
             params={"quick": [{"n": 1, "exp": 2, "which": "prec"}, {"n": 2, "exp": 1, "which": "ss"}, {"n": 1, "exp": 1.8, "which": "prec"}, {"n": 1, "exp": 1.8, "which": "sigma0"},
                               {"n": 1, "exp": 2, "which": "sigma0"}, {"n": 1, "exp": 1.8, "which": "ss"}],
                     "thorough": [{"n": 2, "exp": e, "which": wh} for e in (1, 2, 1.8) for wh in ("prec", "ss", "sigma0")]}),
+    Harness("C18.prec", prec, functions=_FS + [StrengthModel.precStrength], assumptions=_A + ["superposition exponents 1 and 2 (exact over the reals)"],
+            stubs=["raw formulas replaced by arbitrary values per phase (as in C18.clip)"], bounds={"phases": "nph", "recorded times": "len(pattern)"}, opts={"ob_timeout": 30.0},
+            params={"quick": [{"nph": 2, "pattern": "r", "same": 2, "mixed": 1}, {"nph": 1, "pattern": "rn", "same": 2, "mixed": 1}, {"nph": 2, "pattern": "r", "same": 1, "mixed": 2}],
+                    "thorough": [{"nph": 2, "pattern": "rr", "same": 2, "mixed": 1}, {"nph": 3, "pattern": "r", "same": 2, "mixed": 1}, {"nph": 2, "pattern": "ri", "same": 1, "mixed": 2}]}),
+    Harness("C18.gg_post", gg_post, functions=_FG, assumptions=_A + ["new distribution >= 0 with at least one class holding a grain; concrete grid"], bounds={"grain size classes": "n"},
+            opts={"ob_timeout": 30.0, "max_paths": 400},
+            params={"quick": [{"n": 2}, {"n": 3}], "thorough": [{"n": 4}]}),
     Harness("C18.history", history, functions=_FS + _FG, assumptions=_A + ["host history arrays and size distributions arbitrary >= 0"],
             bounds={"phases": "nph", "host steps": "steps", "size classes": "ncls"},
             params={"quick": [{"nph": 1, "steps": 2, "ncls": 2}, {"nph": 2, "steps": 1, "ncls": 2}], "thorough": [{"nph": 2, "steps": 2, "ncls": 2}, {"nph": 1, "steps": 3, "ncls": 3}]}),
     Harness("C18.gg_couple", gg_couple, functions=_FG, assumptions=_A + ["Zener exponent m = 1 (default)"], stubs=["GrainGrowthModel.solve replaced on the instance by a recorder (the solve itself: C05, C18.gg_frozen)"],
             params={"quick": [{"nph": 1, "N": 2}, {"nph": 2, "N": 3}], "thorough": [{"nph": 3, "N": 3}]}),
-    Harness("C18.gg_frozen", gg_frozen, functions=_FG, assumptions=_A + ["pinning strong enough to freeze every boundary (z * smallest grain radius >= 1); every class holds at least one grain; narrow grid (max <= 10 min)"],
-            bounds={"grain size classes": "n"}, opts={"ob_timeout": 30.0, "max_paths": 300},
-            params={"quick": [{"n": 2, "solver": "rk4"}, {"n": 2, "solver": "euler"}], "thorough": [{"n": 3, "solver": "rk4"}]}),
+    Harness("C18.gg_frozen", gg_frozen, functions=_FG, assumptions=_A + ["pinning strong enough to freeze every boundary (z * smallest grain radius >= 1)", "host step > 0; host times, grain-growth clock and precipitate volume fraction symbolic"],
+            bounds={"grain distribution": "concrete, 2-3 classes (DISTS)", "host steps": 1}, opts={"ob_timeout": 30.0, "max_paths": 300},
+            params={"quick": [{"dist": "a", "solver": "rk4"}, {"dist": "b", "solver": "euler"}], "thorough": [{"dist": dd, "solver": sv} for dd in ("a", "b", "c") for sv in ("rk4", "euler")]}),
 ]
